@@ -160,3 +160,28 @@ Fixpoint chunk_table_from (pbin : Z) (ptags : list Z) (l : list csrc) : list (li
   end.
 
 Definition chunk_table (l : list csrc) : list (list Z) := chunk_table_from 0 [] l.
+
+(* ---- what a source's store ignores (main/client.go init) ---------------------------
+   the source's effective ignore list (own, or the preceding source's when it gives
+   neither include nor ignore), the two standard ignores (lock files, the disable
+   marker), and the patterns of ITS OWN effective tags whose method is not http.
+   Patterns are numbers here (their identity is all that matters). *)
+Definition STD_LCK : Z := 100.
+Definition STD_DISABLED : Z := 101.
+
+Record isrc := mkis {
+  is_lists : option (list Z * list Z);     (* include, ignore - both given or both omitted *)
+  is_tags : option (list (Z * bool))       (* tag pattern, method is not http; None = inherited *)
+}.
+
+Fixpoint ignore_table_from (pinc pign : list Z) (ptags : list (Z * bool)) (l : list isrc)
+  : list (list Z * list Z) :=
+  match l with
+  | [] => []
+  | s :: r =>
+      let '(inc, ign) := match is_lists s with Some x => x | None => (pinc, pign) end in
+      let tags := match is_tags s with Some t => t | None => ptags end in
+      (inc, ign ++ [STD_LCK; STD_DISABLED] ++ map fst (filter snd tags)) :: ignore_table_from inc ign tags r
+  end.
+
+Definition ignore_table (l : list isrc) : list (list Z * list Z) := ignore_table_from [] [] [] l.
